@@ -4,7 +4,8 @@ Driver for C17.  One line = one whole history:
 
   C17 m=<0|1> sc=<d|cob> {L=<id>,<dflt|n>} {R=<id>} {P=<node>,<key>,<cob|n>,<nvars>} -- op op …
 
-ops: ss:<µs|n> sx ps:<n>,<k>,<µs|n> px:<n>,<k> pu:<n>,<k>,<hex> pv:<n>,<k>,<i>,<v> pa:<n>
+ops: ss:<µs|n> sx sp:<µs|n> ps:<n>,<k>,<µs|n> px:<n>,<k> pp:<n>,<k>,<µs|n> pr:<n>,<k>,<dt µs>,<hex>
+     pu:<n>,<k>,<hex> pv:<n>,<k>,<i>,<v> pa:<n>
      hs:<n>,<int ms> hx:<n> hu:<n> hw:<n>,<v> hd:<n>,<v> ow:<n>,<idx>,<hex> cm:<n>,<code>
      st:<n>,<NAME with _ for blanks> nc:<hex> gs:<n>,<µs> gx:<n> dc
 
@@ -45,7 +46,7 @@ def parseCfgTok (su : Setup) (tok : String) : Option Setup :=
       -- `<nvars>h`: the harness maps every byte as two 4-bit halves; a byte write has the same effect
       let nv ← (if nv.endsWith "h" then nv.dropRight 1 else nv).toNat?
       pure { su with cfg := { su.cfg with pdos := su.cfg.pdos ++ [(n, k)] },
-                     pdoInit := su.pdoInit ++ [((n, k), ⟨cob, nv, List.replicate nv 0, none⟩)] }
+                     pdoInit := su.pdoInit ++ [((n, k), ⟨cob, nv, List.replicate nv 0, none, none⟩)] }
     | _ => none
   | _ => none
 
@@ -56,7 +57,7 @@ def initState (su : Setup) : State :=
     syncPeriod := none
     pdo := fun n k => match su.pdoInit.find? fun e => e.1 == (n, k) with
       | some e => e.2
-      | none => ⟨none, 0, [], none⟩
+      | none => ⟨none, 0, [], none, none⟩
     slave := fun n => match su.slaveInit.find? fun e => e.1 == n with
       | some e => e.2
       | none => ⟨0, 0, none⟩ }
@@ -68,12 +69,15 @@ def parseOp (tok : String) : Option Op :=
   | ["sx"] => some .syncStop
   | ["dc"] => some .disconnect
   | ["ss", a] => (optNat a).map .syncStart
+  | ["sp", a] => (optNat a).map .syncSetPeriod
   | ["nc", a] => (parseHex a).map .nmtFrame
   | [kind, a] =>
     let f := a.splitOn ","
     match kind, f with
     | "ps", [n, k, p] => do pure (.pdoStart (← n.toNat?) (← k.toNat?) (← optNat p))
     | "px", [n, k] => do pure (.pdoStop (← n.toNat?) (← k.toNat?))
+    | "pp", [n, k, p] => do pure (.pdoSetPeriod (← n.toNat?) (← k.toNat?) (← optNat p))
+    | "pr", [n, k, dt, h] => do pure (.pdoReceive (← n.toNat?) (← k.toNat?) (← dt.toNat?) (← parseHex h))
     | "pu", [n, k, h] => do pure (.pdoUpdate (← n.toNat?) (← k.toNat?) (← parseHex h))
     | "pv", [n, k, i, v] => do pure (.pdoSetByte (← n.toNat?) (← k.toNat?) (← i.toNat?) (← v.toNat?))
     | "pa", [n] => do pure (.pdoStopNode (← n.toNat?))
